@@ -25,6 +25,9 @@ def run(ctx):
     rep.disagreements_checked = rep.counts.get('R06.b', 0)
     rep.floor('R06.c', 25)
     rep.floor('R06.b', 15)
+    # map entries: the entry's own length prefix is computed from the same parts that are written (both feature settings)
+    import prost_map
+    prost_map.skip_default(rep, 'R06.m', ctx)
     import gen_proto
     gen_proto.check(rep, ('G06.a',))
     return rep
